@@ -3,4 +3,4 @@ From LLRP Require Import Header.Header Header.ClientState.
 Extraction Language OCaml.
 Extraction "model.ml" hdr_decode read_header read_header_chunks read_full hdr_encode write_header encode_batch decode_batch
   c_new client_run client_read_header reading client_observe client_write_header client_offers
-  client_send_all client_write_header_io client_send_io client_paused_log.
+  client_send_all client_write_header_io client_send_io client_paused_log msg_writer_frame.
